@@ -380,14 +380,8 @@ func (x *Exec) applyContract(fr *Frame, st *State, c *Contract, fn *ssa.Function
 	}
 	res := x.freshResult(st, resT, "r_"+shortName(name))
 	// deterministic pure externs: results are functions of the arguments
-	if c.Pure && res != nil && !x.argsTouchHeap(args) {
-		var ats []*Term
-		for _, a := range args {
-			if a.K == KFunc && a.Term == nil {
-				continue
-			}
-			ats = append(ats, leafTerms(a)...)
-		}
+	if c.Pure && res != nil {
+		ats := x.pureArgTerms(st, args)
 		i := 0
 		res = buildValue(resT, func(l Leaf) *Term {
 			t := x.ctx.App(fmt.Sprintf("f$%s$%d", sanitize(name), i), l.Sort, ats...)
@@ -916,4 +910,25 @@ func exprUsesGhost(e *Expr) bool {
 		}
 	}
 	return false
+}
+
+// pureArgTerms: what a pure extern's result is a function of: scalar leaves, object identities,
+// and for byte slices their current contents.
+func (x *Exec) pureArgTerms(st *State, args []*Value) []*Term {
+	var ats []*Term
+	for _, a := range args {
+		if a.K == KFunc && a.Term == nil {
+			continue
+		}
+		if a.K == KSlice {
+			if sl, ok := under(a.T).(*types.Slice); ok {
+				if b, ok := under(sl.Elem()).(*types.Basic); ok && b.Kind() == types.Uint8 {
+					ats = append(ats, x.bytesToStr(st, a))
+					continue
+				}
+			}
+		}
+		ats = append(ats, leafTerms(a)...)
+	}
+	return ats
 }
